@@ -179,3 +179,16 @@ CHECKS["C11"] = dict(
     assumptions=["timings are sampled by hammering, not enumerated", "relays need a local address the default policy allows; skipped (recorded) otherwise", "unprocessed datagrams are counted inconclusive, not violations"],
     units=[unit("props", ["Hammer"], "C11", needs=["inpkg-main"])],
 )
+
+CHECKS["C14"] = dict(
+    level="exploration",
+    rule="(Deadlines) rapid-generated histories of write(DNS|non-DNS) / reply(from port 53|other) / pause on one NAT entry inside the in-package executor (package service) whose fake outbound socket records every "
+         "SetReadDeadline; timeouts from {1 ms .. 5 min} incl. 16999/17000/17001 ms. After every write the deadline is >= start-of-write + its timeout (17 s for port 53) and never moves earlier; the only permitted "
+         "shortening is the fast close (exactly one write so far, it was DNS, first response from a port-53 sender), which must then happen; on expiry: removed once, socket closed, table empty. "
+         "(Lifecycle, Long) batches of 4..24 (thorough 64) concurrent clients against the real PacketHandler on real sockets with NAT timeouts of 300-600 ms and scripts plain / dns-single / dns-multi / mixed / "
+         "dns-then-plain / plain-reply-from-53 / recreate: alive before last-send + timeout (client-side instant, sound), removed and outbound port released within +2 s, single-DNS associations close right after the "
+         "response, DNS associations still alive at +1.5 s (Long: +16.5 s) despite the short timeout, shutdown reclaims everything (goroutines/sockets back to baseline). "
+         "Non-trivial = history with both DNS and non-DNS writes or a fast-close candidate (Deadlines); every batch (Lifecycle).",
+    assumptions=["the fake outbound socket does not follow the wall clock: only an already-due deadline expires it", "real-time upper bounds are 2-3 s"],
+    units=[unit("props", ["Deadlines"], "C14", needs=["inpkg-service"]), unit("props", ["Lifecycle", "Long"], "C14")],
+)
